@@ -194,6 +194,17 @@ Goal exists plan p_alpha p_beta t_alpha st1 t_beta st2 uses defs,
     c12_good uses defs = false.
 Proof. exact Props.C12.C12_multi_python_drain_regression. Qed.
 Print Assumptions Props.C12.C12_multi_python_drain_regression.
+Goal exists plan p_alpha p_beta t_alpha st1 uses defs,
+    Proofs.C12MultiWitness.y_plan Python Proofs.C12MultiWitness.ws_py_taint = Some plan /\ plan = [p_alpha; p_beta] /\
+    c12_py_dom Proofs.C12MultiWitness.y_py_cfg (items_of (op_data p_alpha)) = false /\
+    c12_py_dom Proofs.C12MultiWitness.y_py_cfg (items_of (op_data p_beta)) = true /\
+    c12_py_known Proofs.C12MultiWitness.y_py_cfg (op_data p_beta) = None /\
+    py_generate_multi uc_exec Proofs.C12MultiWitness.y_py_cfg py_empty_state (op_data p_alpha) = Ok (t_alpha, st1) /\
+    Proofs.C12Multi.c12_py_state_ok st1 = false /\
+    Proofs.C12Multi.c12_py_observe_multi uc_exec Proofs.C12MultiWitness.y_py_cfg st1 (op_data p_beta) = Ok (uses, defs) /\
+    In (lit "datetime") uses /\ ~ In (lit "datetime") defs /\ c12_good uses defs = false.
+Proof. exact Props.C12.C12_multi_python_earlier_dom_needed. Qed.
+Print Assumptions Props.C12.C12_multi_python_earlier_dom_needed.
 Goal forall (uc : unicode) (cfg : go_config) (st : go_state) (pd : parsed) (text : str) (st' : go_state),
     go_generate_multi uc cfg st pd = Ok (text, st') <->
     exists ds header st1,
